@@ -2,6 +2,7 @@ package main
 
 import (
 	"fmt"
+	"go/token"
 	"go/types"
 	"os"
 	"regexp"
@@ -336,6 +337,7 @@ func runC16(p *Program, r *Report) {
 			}
 			r.Check(len(got) == 2 && got[')'] == '(' && got[']'] == '[', "C16.R1", tc, p.Pos(lit.Pos), "bracket table pairs ) with ( and ] with [", fmt.Sprintf("bracket table is %v", got))
 		}
+		checkStackDiscipline(p, r, "C16.R1", fns)
 	}
 	// ---- R2 language ---------------------------------------------------------
 	per, ok := splitByParam(site.Cond)
@@ -532,4 +534,136 @@ func confirmSelector(sel string, guard *Form, regs map[string]*RegexConst) bool 
 		return false
 	}
 	return ev(guard) && checkerBalanced(stripped)
+}
+
+// checkStackDiscipline: where the bracket matcher keeps the open brackets in a stack of a recognised form
+// (container/list, or a slice that grows by append), the bracket that a closing bracket is compared with must be
+// the one that is removed: push at the end, compare the last, remove the last (or all three at the front). Other
+// representations (counters, bit stacks) are left to the trusted part of the check.
+func checkStackDiscipline(p *Program, r *Report, rule string, fns []*ssa.Function) {
+	n := 0
+	for _, f := range fns {
+		short := strings.TrimPrefix(fnName(f), modulePath+".")
+		// container/list
+		var backs, fronts, pushBack, pushFront []*ssa.Call
+		var removes []*ssa.Call
+		for _, b := range f.Blocks {
+			for _, in := range b.Instrs {
+				c, ok := in.(*ssa.Call)
+				if !ok {
+					continue
+				}
+				g := staticCallee(c.Common())
+				if g == nil {
+					continue
+				}
+				switch fnName(g) {
+				case "(*container/list.List).Back":
+					backs = append(backs, c)
+				case "(*container/list.List).Front":
+					fronts = append(fronts, c)
+				case "(*container/list.List).PushBack":
+					pushBack = append(pushBack, c)
+				case "(*container/list.List).PushFront":
+					pushFront = append(pushFront, c)
+				case "(*container/list.List).Remove":
+					removes = append(removes, c)
+				}
+			}
+		}
+		if len(removes) > 0 && (len(pushBack)+len(pushFront)) > 0 {
+			n++
+			ok := true
+			why := ""
+			if len(backs) > 0 && len(pushFront) > 0 || len(fronts) > 0 && len(pushBack) > 0 {
+				ok, why = false, "brackets are pushed at one end of the list and looked at at the other"
+			}
+			for _, rm := range removes {
+				arg := rm.Common().Args[1]
+				isTop := false
+				for _, t := range append(append([]*ssa.Call{}, backs...), fronts...) {
+					if arg == ssa.Value(t) {
+						isTop = true
+					}
+				}
+				if !isTop {
+					ok, why = false, "the element removed is not the one that was looked at"
+				}
+			}
+			r.Check(ok, rule, short+"#stack-discipline", p.Pos(removes[0].Pos()), "the bracket compared with a closing bracket is the one removed from the list (same end for push, look and remove)", "the open-bracket stack is not used as a stack: "+why+"; mixed nestings such as a[b(c)) then count as balanced")
+			continue
+		}
+		// a slice that grows by append
+		hasAppend := false
+		for _, b := range f.Blocks {
+			for _, in := range b.Instrs {
+				if c, ok := in.(*ssa.Call); ok {
+					if bi, ok := c.Common().Value.(*ssa.Builtin); ok && bi.Name() == "append" {
+						if _, isSl := c.Type().Underlying().(*types.Slice); isSl {
+							hasAppend = true
+						}
+					}
+				}
+			}
+		}
+		if !hasAppend {
+			continue
+		}
+		lastIdx := func(idx ssa.Value, of ssa.Value) bool {
+			bo, ok := idx.(*ssa.BinOp)
+			if !ok || bo.Op != token.SUB {
+				return false
+			}
+			k, okk := constInt(bo.Y)
+			lv, isLen := isLenOf(bo.X)
+			return okk && k == 1 && isLen && lv == of
+		}
+		var tops, pops []ssa.Instruction
+		okAll := true
+		why := ""
+		for _, b := range f.Blocks {
+			for _, in := range b.Instrs {
+				switch x := in.(type) {
+				case *ssa.IndexAddr:
+					if _, isSl := x.X.Type().Underlying().(*types.Slice); !isSl {
+						continue
+					}
+					if _, isStr := x.X.Type().Underlying().(*types.Basic); isStr {
+						continue
+					}
+					tops = append(tops, x)
+					if !lastIdx(x.Index, x.X) {
+						if k, ok := constInt(x.Index); !ok || k != 0 {
+							continue // not a top-of-stack read we recognise
+						}
+						okAll, why = false, "brackets are appended at the end but the first one is looked at"
+					}
+				case *ssa.Slice:
+					if _, isSl := x.X.Type().Underlying().(*types.Slice); !isSl {
+						continue
+					}
+					pops = append(pops, x)
+					lowOK := x.Low == nil
+					if k, ok := constInt(x.Low); ok && k == 0 {
+						lowOK = true
+					}
+					if !lowOK {
+						okAll, why = false, "a closing bracket removes the first (outermost) open bracket instead of the last one it was compared with"
+					} else if x.High == nil || !lastIdx(x.High, x.X) {
+						if _, isK := constInt(x.High); x.High != nil && !isK {
+							okAll, why = false, "a closing bracket does not remove exactly the last open bracket"
+						}
+					}
+				}
+			}
+		}
+		if len(pops) == 0 || len(tops) == 0 {
+			continue
+		}
+		n++
+		r.Check(okAll, rule, short+"#stack-discipline", p.Pos(pops[0].Pos()), "open brackets are appended at the end; the last one is compared with a closing bracket and removed", "the open-bracket stack is not used as a stack: "+why+"; mixed nestings such as a[b(c)) then count as balanced")
+	}
+	if n == 0 {
+		r.OK(rule, "safehtml.hasBalancedBrackets#stack-discipline", "", "no stack of a recognised form (list or appended slice) in the bracket matcher: its algorithm stays in the trusted part")
+	}
 }
